@@ -205,6 +205,111 @@ def case_slice1dint(ctx, inp):
         ctx.branch("int-later-block")
 
 
+def near_identity(rng, n):
+    """Integer indexers close to the identity `arange(n)` — where `take`'s no-op shortcut must NOT fire
+    (and the identity itself, where it must)."""
+    base = list(range(n))
+    if n == 0:
+        return []
+    t = rng.randrange(9)
+    if t == 0:
+        return base
+    if t == 1:      # sorted, full length, one entry duplicated (both endpoints kept when n > 2)
+        idx = base[:]
+        if n > 1:
+            j = rng.randrange(1, n) if n > 2 else 1
+            idx[j - 1 if j == n - 1 and n > 2 else j] = idx[j - 1] if not (j == n - 1 and n > 2) else idx[j]
+            idx = sorted(idx)
+        return idx
+    if t == 2:      # any sorted full-length indexer containing 0 and n-1
+        idx = sorted([0, n - 1] + [rng.randrange(n) for _ in range(max(n - 2, 0))])[:max(n, 1)]
+        return idx if len(idx) == n else base
+    if t == 3:      # permutation
+        idx = base[:]
+        rng.shuffle(idx)
+        return idx
+    if t == 4:      # arange with one element replaced
+        idx = base[:]
+        idx[rng.randrange(n)] = rng.randrange(n)
+        return idx
+    if t == 5:      # two neighbours swapped
+        idx = base[:]
+        if n > 1:
+            j = rng.randrange(n - 1)
+            idx[j], idx[j + 1] = idx[j + 1], idx[j]
+        return idx
+    if t == 6:      # arange given with negative numbers / reversed
+        return [i - n for i in base] if rng.random() < 0.5 else base[::-1]
+    if t == 7:      # full arange plus / minus one element
+        return base + [n - 1] if rng.random() < 0.5 else base[:-1] or base
+    return sorted(rng.randrange(n) for _ in range(n))   # sorted, full length, arbitrary duplicates
+
+
+def _sorted_full_length(n):
+    return [list(c) for c in itertools.combinations_with_replacement(range(n), n)]
+
+
+def case_take(ctx, inp):
+    """`take` (integer-list indexing along one axis): the no-op decision and the output chunks vs the model,
+    and the real graph executed on position-valued blocks vs np.take."""
+    import numpy as np
+    from dask._task_spec import Alias, DataNode
+    from dask.array.slicing import take
+    from dask.local import get_sync
+    chunks = tuple(tuple(c) for c in inp["chunks"])
+    axis = inp["axis"]
+    n = sum(chunks[axis])
+    idx = [i + n if i < 0 else i for i in inp["index"]]
+    shape = tuple(sum(c) for c in chunks)
+    x = np.arange(int(np.prod(shape))).reshape(shape) * 3 + 1
+    out_chunks, dsk = take("y-verif", "x", chunks, np.array(idx, dtype=int), axis=axis)
+    identity = bool(dsk) and all(isinstance(v, Alias) for v in dsk.values())
+    model = unsym(ctx.lean(Sym("takeplan"), list(chunks[axis]), idx))
+    if model[0] == "identity":
+        ctx.eq("take: no-op shortcut taken", True, identity)
+        ctx.branch("take-identity")
+    else:
+        ctx.eq("take: no-op shortcut taken", False, identity)
+        ctx.eq("take: output chunks along the axis", model[1], [int(c) for c in out_chunks[axis]])
+    # run the real graph on the real blocks
+    graph = dict(dsk)
+    cum = [np.cumsum((0,) + c) for c in chunks]
+    for coords in itertools.product(*[range(len(c)) for c in chunks]):
+        sl = tuple(slice(cum[a][b], cum[a][b + 1]) for a, b in enumerate(coords))
+        graph[("x",) + coords] = DataNode(("x",) + coords, x[sl])
+    keys = [("y-verif",) + c for c in itertools.product(*[range(len(c)) for c in out_chunks])]
+    vals = get_sync(graph, keys)
+    exp = np.take(x, idx, axis=axis)
+    ocum = [np.cumsum((0,) + tuple(c)) for c in out_chunks]
+    got = np.full(exp.shape, -1) if tuple(sum(c) for c in out_chunks) == exp.shape else None
+    if got is None:
+        ctx.fail("take: output chunks do not add up to the result shape", observed=[list(c) for c in out_chunks],
+                 expected=list(exp.shape))
+        return
+    for k, v in zip(keys, vals):
+        sl = tuple(slice(ocum[a][b], ocum[a][b + 1]) for a, b in enumerate(k[1:]))
+        v = np.asarray(v)
+        if v.shape != got[sl].shape:
+            ctx.fail("take: block shape differs from the declared chunks", observed=[list(k[1:]), list(v.shape)])
+            return
+        got[sl] = v
+    if (got != exp).any():
+        ctx.fail("take plan does not read index[p] at output position p", observed=np.moveaxis(got, axis, 0).tolist(),
+                 expected=np.moveaxis(exp, axis, 0).tolist())
+    if len(idx) == n and not identity:
+        ctx.branch("take-full-length-not-identity")
+        if idx == sorted(idx):
+            ctx.branch("take-full-length-sorted-with-duplicates")
+    if idx != sorted(idx):
+        ctx.branch("take-unsorted")
+    if len(set(idx)) < len(idx):
+        ctx.branch("take-duplicates")
+    if len(out_chunks[axis]) > 1:
+        ctx.branch("take-multi-output-chunk")
+    if len(chunks) > 1:
+        ctx.branch("take-nd")
+
+
 # --------------------------------------------------------------------------------------
 # API level
 # --------------------------------------------------------------------------------------
@@ -259,6 +364,8 @@ def _rand_index_1ax(rng, n, allow):
     if kind == "int":
         return rng.randrange(-n, n), kind
     if kind == "list":
+        if n and rng.random() < 0.5:
+            return near_identity(rng, n), kind
         k = rng.randint(0, n + 2) if n else 0
         style = rng.random()
         idx = [rng.randrange(-n, n) for _ in range(k)]
@@ -486,7 +593,7 @@ def case_blocks(ctx, inp):
     ctx.branch("blocks")
 
 
-CASES = {"pyslice": case_pyslice, "norm": case_norm, "slice1d": case_slice1d, "slice1dint": case_slice1dint,
+CASES = {"take": case_take, "pyslice": case_pyslice, "norm": case_norm, "slice1d": case_slice1d, "slice1dint": case_slice1dint,
          "api1d": case_api1d, "apind": case_apind, "vindex": case_vindex, "blocks": case_blocks}
 
 
@@ -597,6 +704,25 @@ def generate(ctx):
         v = [None] + list(range(-n - 2, n + 3))
         yield "slice1d", {"lengths": list(lengths), "s": [rng.choice(v), rng.choice(v), rng.choice([None, 0, 1, 2, 3, -1, -2, -3])],
                           "raw": True}
+    # (2b) take: near-identity indexers for every chunking of small axes (function level, real graph executed)
+    for n in range(1, 6):
+        full = _sorted_full_length(n)
+        for lengths in compositions(n):
+            for idx in full:
+                if n <= 3 or thorough or rng.random() < (0.35 if n == 4 else 0.04):
+                    yield "take", {"chunks": [list(lengths)], "axis": 0, "index": idx}
+            for _ in range(3 if not thorough else 12):
+                yield "take", {"chunks": [list(lengths)], "axis": 0, "index": near_identity(rng, n)}
+    for _ in range(ctx.n(150, 3000)):
+        nd = rng.randint(1, 3)
+        chunks = [list(random_chunks(rng, rng.randint(1, 7), zeros=0.1)) for _ in range(nd)]
+        axis = rng.randrange(nd)
+        n = sum(chunks[axis])
+        if rng.random() < 0.6:
+            idx = near_identity(rng, n)
+        else:
+            idx = [rng.randrange(-n, n) for _ in range(rng.randint(1, n + 3))]
+        yield "take", {"chunks": chunks, "axis": axis, "index": idx}
     # (3) API level, one axis
     for n in range(0, 7):
         for lengths in compositions(n):
@@ -608,6 +734,28 @@ def generate(ctx):
         lengths = random_chunks(rng, n, zeros=1.0)
         v = [None] + list(range(-n - 2, n + 3))
         yield "api1d", {"lengths": list(lengths), "s": [rng.choice(v), rng.choice(v), rng.choice([None, 1, 2, -1, -2, -3])]}
+    # (3b) API level: near-identity integer indexers, alone and inside N-d indices, all chunkings of small axes
+    for n in range(1, 5):
+        full = _sorted_full_length(n)
+        for lengths in compositions(n):
+            picks = full if (thorough or n <= 3) else rng.sample(full, 8)
+            for idx in picks:
+                if not thorough and rng.random() > 0.5:
+                    continue
+                form = rng.randrange(4)
+                other = rng.randint(1, 3)
+                och = list(random_chunks(rng, other))
+                if form == 0:
+                    yield "apind", {"shape": [n], "chunks": [list(lengths)], "index": [("list", idx)]}
+                elif form == 1:
+                    yield "apind", {"shape": [other, n], "chunks": [och, list(lengths)],
+                                    "index": [("slice", [None, None, None]), ("array", idx)]}
+                elif form == 2:
+                    yield "apind", {"shape": [other, n], "chunks": [och, list(lengths)],
+                                    "index": [("int", rng.randrange(-other, other)), ("list", idx)]}
+                else:
+                    yield "apind", {"shape": [n, other], "chunks": [list(lengths), och],
+                                    "index": [("list", idx), ("slice", [None, None, rng.choice([None, -1, 2])])]}
     # (4) API level, N-d mixes
     for _ in range(ctx.n(140, 2500)):
         shape, chunks = _rand_nd(rng)
